@@ -53,7 +53,7 @@ class Ctx:
     __slots__ = (
         "active", "n", "fault_at", "fault_exc", "fault_site", "evict_at", "evict_fn", "evicted_site",
         "yield_at", "on_yield", "trace_ws", "ws_ordinals", "pending", "cap", "last_site", "ws_hits", "ws_events",
-        "force_at",
+        "force_at", "ws_post",
     )
 
     def __init__(self) -> None:
@@ -75,6 +75,7 @@ class Ctx:
         self.ws_hits = 0
         self.ws_events = None
         self.force_at = -1
+        self.ws_post = []
 
     def begin(self) -> None:
         self.n = 0
@@ -85,6 +86,7 @@ class Ctx:
         if self.trace_ws:
             self.ws_ordinals = []
             self.ws_events = []
+            self.ws_post = []
         self.active = True
 
     def end(self) -> int:
@@ -158,6 +160,8 @@ def _callback(code: types.CodeType, line: int):
                 st.pop()
                 if not ctx.ws_ordinals or ctx.ws_ordinals[-1] != n:
                     ctx.ws_ordinals.append(n)
+                if len(ctx.ws_post) < 512:
+                    ctx.ws_post.append((p[2], n))   # this write line began at ordinal p[2] and is complete at n
         if key in WRITE_SITES:
             if len(ctx.ws_events) < 256:
                 ctx.ws_events.append((n, key))
@@ -166,7 +170,7 @@ def _callback(code: types.CodeType, line: int):
             if len(st) < 16:
                 if not st:
                     ctx.ws_hits += 1
-                st.append((sys._getframe(1), line))
+                st.append((sys._getframe(1), line, n))
     if n == ctx.evict_at:
         ctx.evicted_site = key
         ctx.evict_fn()
